@@ -22,7 +22,7 @@ func (v Violation) Class() string { return v.Property + "/" + v.Rule }
 // Result describes one simulated run.
 type Result struct {
 	Violations  []Violation
-	Sig         uint64 // signature of the case, for the distinct count
+	Sig         uint64   // signature of the case, for the distinct count
 	Sigs        []uint64 // engines whose runs contain several cases list one signature per non-trivial case here instead
 	Cases       int      // number of cases in this run (0: the run is one case)
 	Nontrivial  bool
@@ -37,7 +37,7 @@ type Result struct {
 	Sites       map[int]int
 	Probes      map[string]int
 	Blocked     int
-	Poisoned    bool // a task is stuck outside the scheduler (hang or busy loop in the code under test): the process must not run anything else
+	Poisoned    bool     // a task is stuck outside the scheduler (hang or busy loop in the code under test): the process must not run anything else
 	Trace       []string // human-readable account of the run (only when Opts.Trace)
 	Sample      interface{}
 }
